@@ -1,9 +1,194 @@
+import SwayVerif.Model.IrText
 import SwayVerif.Driver.Util
-/-! Driver for C05 (stub — replace `answer`; keep `run`). -/
+/-!
+Driver for C05 (see `harness/src/bin/sv_c05.rs` for the line formats).
+  const <top|nested> <const tokens> ;; <hex printed | noprint> <ok <const tokens> | err | verr | panic>
+  ty <ty tokens> ;; <hex printed> <ok <ty tokens> | err | verr | panic>
+  str <hex bytes> ;; <hex printed literal> <ok <hex bytes> | err | panic>
+  module <id> <stage> ;; reparse=… verify=… fixpoint=… rawsame=… [diff=…] bytecode=… kind=… lines=…
+  pipeline <id> ;; stopped=…      skip <id> ;; …
+-/
 namespace SwayVerif.Driver.C05
-open SwayVerif.Driver
+open SwayVerif.IrText SwayVerif.Driver
 
-def answer (_line : String) : String := "unimplemented agree=0 prop=0"
+def natOf? (s : String) : Option Nat := s.toNat?
+
+def afterColon (s : String) : String := ((s.splitOn ":").drop 1 |> String.intercalate ":")
+
+partial def tyOfToks : List String → Option (Ty × List String)
+  | [] => none
+  | t :: r =>
+    let many (k : Nat) (r : List String) : Option (Tys × List String) := Id.run do
+      let mut acc : List Ty := []
+      let mut rest := r
+      for _ in [0:k] do
+        match tyOfToks rest with
+        | some (t, r') => acc := acc ++ [t]; rest := r'
+        | none => return none
+      return some (tysOfList acc, rest)
+    if t = "never" then some (.never, r) else if t = "unit" then some (.unit, r) else if t = "bool" then some (.bool, r)
+    else if t = "b256" then some (.b256, r) else if t = "strslice" then some (.strSlice, r)
+    else if t = "slice" then some (.slice, r) else if t = "ptr" then some (.ptr, r)
+    else if t.startsWith "uint:" then (natOf? (afterColon t)).map fun n => (.uint n, r)
+    else if t.startsWith "strarr:" then (natOf? (afterColon t)).map fun n => (.strArr n, r)
+    else if t.startsWith "arr:" then do
+      let n ← natOf? (afterColon t); let (e, r') ← tyOfToks r; pure (.arr e n, r')
+    else if t.startsWith "union:" then do
+      let k ← natOf? (afterColon t); let (ts, r') ← many k r; pure (.union ts, r')
+    else if t.startsWith "struct:" then do
+      let k ← natOf? (afterColon t); let (ts, r') ← many k r; pure (.struct ts, r')
+    else if t = "tptr" then do let (e, r') ← tyOfToks r; pure (.tptr e, r')
+    else if t = "tslice" then do let (e, r') ← tyOfToks r; pure (.tslice e, r')
+    else none
+
+def consOfList : List Const → Consts
+  | [] => .nil
+  | c :: cs => .cons c (consOfList cs)
+
+def bytesOfHex? (s : String) : Option (List Nat) := (hexBytes? s).map (·.map (·.toNat))
+
+partial def constOfToks : List String → Option (Const × List String)
+  | "C" :: r => do
+    let (ty, r) ← tyOfToks r
+    match r with
+    | [] => none
+    | v :: r =>
+      let many (k : Nat) (r : List String) : Option (Consts × List String) := Id.run do
+        let mut acc : List Const := []
+        let mut rest := r
+        for _ in [0:k] do
+          match constOfToks rest with
+          | some (c, r') => acc := acc ++ [c]; rest := r'
+          | none => return none
+        return some (consOfList acc, rest)
+      if v = "undef" then some (.undef ty, r) else if v = "unit" then some (.unit ty, r)
+      else if v = "bool:0" then some (.bool ty false, r) else if v = "bool:1" then some (.bool ty true, r)
+      else if v.startsWith "uint:" then (natOf? (afterColon v)).map fun n => (.uint ty n, r)
+      else if v.startsWith "u256:" then (parseHex? (afterColon v)).map fun n => (.u256 ty n, r)
+      else if v.startsWith "b256:" then (parseHex? (afterColon v)).map fun n => (.b256 ty n, r)
+      else if v.startsWith "str:" then (bytesOfHex? (afterColon v)).map fun b => (.str ty b, r)
+      else if v.startsWith "raw:" then (bytesOfHex? (afterColon v)).map fun b => (.raw ty b, r)
+      else if v.startsWith "arr:" then do let k ← natOf? (afterColon v); let (es, r') ← many k r; pure (.arr ty es, r')
+      else if v.startsWith "slice:" then do let k ← natOf? (afterColon v); let (es, r') ← many k r; pure (.slice ty es, r')
+      else if v.startsWith "struct:" then do let k ← natOf? (afterColon v); let (es, r') ← many k r; pure (.struct ty es, r')
+      else if v = "ref" then do let (c, r') ← constOfToks r; pure (.ref ty c, r')
+      else none
+  | _ => none
+
+def pad64 (n : Nat) : String :=
+  let d := Nat.toDigits 16 n
+  String.ofList (List.replicate (64 - d.length) '0' ++ d)
+
+def hexOfBytes (bs : List Nat) : String :=
+  if bs.isEmpty then "-" else
+  String.ofList (bs.foldr (fun b acc =>
+    let d := Nat.toDigits 16 b
+    (if d.length < 2 then '0' :: d else d) ++ acc) [])
+
+mutual
+partial def toksOfTy : Ty → List String
+  | .never => ["never"] | .unit => ["unit"] | .bool => ["bool"] | .uint n => [s!"uint:{n}"] | .b256 => ["b256"]
+  | .strSlice => ["strslice"] | .strArr n => [s!"strarr:{n}"] | .slice => ["slice"] | .ptr => ["ptr"]
+  | .arr t n => s!"arr:{n}" :: toksOfTy t
+  | .union ts => let l := toksOfTys ts; s!"union:{l.1}" :: l.2
+  | .struct ts => let l := toksOfTys ts; s!"struct:{l.1}" :: l.2
+  | .tptr t => "tptr" :: toksOfTy t
+  | .tslice t => "tslice" :: toksOfTy t
+partial def toksOfTys : Tys → Nat × List String
+  | .nil => (0, [])
+  | .cons t ts => let r := toksOfTys ts; (r.1 + 1, toksOfTy t ++ r.2)
+end
+
+mutual
+partial def toksOfConst : Const → List String
+  | .undef t => "C" :: toksOfTy t ++ ["undef"]
+  | .unit t => "C" :: toksOfTy t ++ ["unit"]
+  | .bool t b => "C" :: toksOfTy t ++ [if b then "bool:1" else "bool:0"]
+  | .uint t n => "C" :: toksOfTy t ++ [s!"uint:{n}"]
+  | .u256 t n => "C" :: toksOfTy t ++ [s!"u256:{pad64 n}"]
+  | .b256 t n => "C" :: toksOfTy t ++ [s!"b256:{pad64 n}"]
+  | .str t b => "C" :: toksOfTy t ++ [s!"str:{hexOfBytes b}"]
+  | .raw t b => "C" :: toksOfTy t ++ [s!"raw:{hexOfBytes b}"]
+  | .arr t es => let l := toksOfConsts es; "C" :: toksOfTy t ++ s!"arr:{l.1}" :: l.2
+  | .slice t es => let l := toksOfConsts es; "C" :: toksOfTy t ++ s!"slice:{l.1}" :: l.2
+  | .struct t es => let l := toksOfConsts es; "C" :: toksOfTy t ++ s!"struct:{l.1}" :: l.2
+  | .ref t c => "C" :: toksOfTy t ++ "ref" :: toksOfConst c
+partial def toksOfConsts : Consts → Nat × List String
+  | .nil => (0, [])
+  | .cons c cs => let r := toksOfConsts cs; (r.1 + 1, toksOfConst c ++ r.2)
+end
+
+def charsOfHex? (s : String) : Option (List Char) := (hexBytes? s).map (·.map fun b => Char.ofNat b.toNat)
+
+def showPR {α : Type} (f : α → String) : PR α → String
+  | .ok a => "ok " ++ f a
+  | .err => "err"
+  | .panic => "panic"
+
+def kvOf (ts : List String) (k : String) : String :=
+  match ts.find? (·.startsWith (k ++ "=")) with
+  | some t => (t.drop (k.length + 1)).toString
+  | none => ""
+
+def answer (line : String) : String :=
+  let (c, i) := splitCase line
+  match c with
+  | "const" :: pos :: toks =>
+    match constOfToks toks, i with
+    | some (cn, []), printed :: res =>
+      let top := pos = "top"
+      let mprint := printConst cn
+      let printAgree := match charsOfHex? printed with | some p => p == mprint | none => false
+      let mparse := if top then parseConstTop mprint else parseConst mprint
+      let mres := showPR (fun c => " ".intercalate (toksOfConst c)) mparse
+      let ires := " ".intercalate res
+      -- `verr`: the real `parse` ran the verifier on the wrapper module and it rejected the constant's
+      -- shape (the kernel model stops before verification): comparable only as "the text parsed".
+      let parseAgree := if ires = "verr" then (match mparse with | .ok _ => true | _ => false) else mres == ires
+      let impl : PR Const := match res with
+        | "ok" :: r => (match constOfToks r with | some (c', []) => .ok c' | _ => .err)
+        | ["panic"] => .panic
+        | _ => .err
+      let dom := if top then printableTop cn else printable cn
+      let prop := if ires = "verr" then true else propConst top cn impl
+      s!"{mres} agree={b01 (printAgree && parseAgree)} prop={b01 prop} printable={b01 dom} pos={pos} res={res.headD "?"} pa={b01 printAgree}"
+    | _, _ => "bad-const agree=0 prop=0"
+  | "ty" :: toks =>
+    match tyOfToks toks, i with
+    | some (t, []), printed :: res =>
+      let mprint := printTy t
+      let printAgree := match charsOfHex? printed with | some p => p == mprint | none => false
+      let mparse := parseTy mprint
+      let mres := showPR (fun t => " ".intercalate (toksOfTy t)) mparse
+      let ires := " ".intercalate res
+      let ok := tyOk t
+      let prop := if ok then ires == "ok " ++ " ".intercalate (toksOfTy t) else true
+      s!"{mres} agree={b01 (printAgree && mres == ires)} prop={b01 prop} tyok={b01 ok} res={res.headD "?"} pa={b01 printAgree}"
+    | _, _ => "bad-ty agree=0 prop=0"
+  | ["str", hx] =>
+    match bytesOfHex? hx, i with
+    | some bs, printed :: res =>
+      let mprint := '"' :: escape bs ++ ['"']
+      let printAgree := match charsOfHex? printed with | some p => p == mprint | none => false
+      let mres := match unescape (escape bs) with | some b => "ok " ++ hexOfBytes b | none => "err"
+      let ires := " ".intercalate res
+      s!"{mres} agree={b01 (printAgree && mres == ires)} prop={b01 (ires == "ok " ++ hexOfBytes bs)} len={bs.length} pa={b01 printAgree}"
+    | _, _ => "bad-str agree=0 prop=0"
+  | "module" :: _ =>
+    let rp := kvOf i "reparse" = "ok"
+    let vf := kvOf i "verify" = "ok"
+    let fx := kvOf i "fixpoint" = "1"
+    let raw := kvOf i "rawsame" = "1"
+    let bc := kvOf i "bytecode"
+    let bcOk := bc = "same" || bc = "n/a" || bc = "diff_vmsame"
+    let prop := propModule rp vf fx bcOk raw
+    let why := if !rp then "reparse" else if !vf then "verify" else if !fx then "fixpoint" else if !bcOk then "bytecode"
+               else if !raw then "value-numbering" else "-"
+    let kind := kvOf i "kind"
+    s!"validated agree=1 prop={b01 prop} why={why} kind={kind} bc={(bc.splitOn ":").headD ""}"
+  | "pipeline" :: _ => s!"info agree=1 prop=1 why=- stopped={kvOf i "stopped"}"
+  | "skip" :: _ => "info agree=1 prop=1 why=- skip=1"
+  | _ => "bad-op agree=0 prop=0"
 
 def run : IO Unit := do
   lineLoop (← IO.getStdin) (← IO.getStdout) answer
